@@ -6,8 +6,6 @@ import (
 	"go/constant"
 	"go/token"
 	"go/types"
-	"golang.org/x/tools/go/ssa"
-	"sort"
 	"strings"
 
 	"golang.org/x/tools/go/packages"
@@ -38,16 +36,27 @@ func init() {
 }
 
 // vswExempt: frozen exemptions of VSW keyed by "func switch(tag)".
-var vswExempt = map[string]string{
-	"ir/constant.NewFloatFromString switch(typ.Kind)":   "16-digit hexadecimal double form: LLVM types such a literal as double and rejects it for x86_fp80, fp128 and ppc_fp128 (`floating point constant does not have type`), so the extended kinds cannot reach this switch in a valid module",
-	"ir/constant.NewFloatFromString switch(typ.Kind)#2": "decimal form: LLVM lexes a decimal literal as double and rejects it for x86_fp80, fp128 and ppc_fp128, which must be written in their 0xK/0xL/0xM forms",
-}
+var vswExempt = map[string]string{}
+
+// vswFloatReaderWhy: the exemption of the floating-point literal reader, stated as a predicate
+// rather than by function name so that it follows the code when the reader is split: a switch
+// over the kind inside the reader's function set (NewFloatFromString and what it refers to)
+// may leave out exactly the extended kinds.
+const vswFloatReaderWhy = "16-digit hexadecimal and decimal forms: LLVM lexes such a literal as a double and rejects it for x86_fp80, fp128 and ppc_fp128 (`floating point constant does not have type`), which must be written in their 0xK/0xL/0xM forms — handled by prefix before any switch over the kind — so the extended kinds cannot reach this switch in a valid module"
+
+var vswExtendedKinds = map[string]bool{"FloatKindX86_FP80": true, "FloatKindFP128": true, "FloatKindPPC_FP128": true}
 
 func ruleVSW(c *Ctx) []Obligation {
 	var obs []Obligation
 	enumByType := map[string]*enumTables{}
 	for _, et := range c.enumTypes() {
 		enumByType[typeKey(et.T)] = et
+	}
+	floatReader := map[*ast.FuncDecl]bool{}
+	if rf := c.lookupFunc(pkgCONS, "NewFloatFromString"); rf != nil {
+		for _, fd := range c.constFuncSet(rf) {
+			floatReader[fd] = true
+		}
 	}
 	for _, path := range []string{pkgIR, pkgCONS, pkgMD, pkgTYP, pkgENC, pkgGEP} {
 		c.eachFunc(path, func(p *packages.Package, fd *ast.FuncDecl, fn *types.Func) {
@@ -109,6 +118,8 @@ func ruleVSW(c *Ctx) []Obligation {
 						o.Detail = fmt.Sprintf("all %d members of %s have a case", len(seen), et.Short)
 					case vswExempt[key] != "":
 						o.Verdict, o.Detail = EXEMPT, fmt.Sprintf("missing %v — %s", missing, vswExempt[key])
+					case floatReader[fd] && allIn(missing, vswExtendedKinds):
+						o.Verdict, o.Detail = EXEMPT, fmt.Sprintf("missing %v — %s", missing, vswFloatReaderWhy)
 					default:
 						o.Verdict = VIOL
 						o.Detail = fmt.Sprintf("the switch over %s panics in its default but has no case for %v", et.Short, missing)
@@ -129,6 +140,15 @@ func ruleVSW(c *Ctx) []Obligation {
 		})
 	}
 	return obs
+}
+
+func allIn(xs []string, set map[string]bool) bool {
+	for _, x := range xs {
+		if !set[x[strings.LastIndex(x, ".")+1:]] {
+			return false
+		}
+	}
+	return len(xs) > 0
 }
 
 // ---------------------------------------------------------------------------
@@ -155,6 +175,56 @@ func ruleLITINT(c *Ctx) []Obligation {
 	// the HasPrefix result) does not matter.
 	keywords := map[string]bool{}
 	prefixBase := map[string]int64{}
+	// a parse site: X.SetString(text, <constant base>), or a call of a function of this package
+	// that hands one of its parameters to SetString as the base (parseBigInt(text, 16))
+	baseParam := map[*types.Func]int{}
+	var parseBase func(call *ast.CallExpr) (int64, bool)
+	parseBase = func(call *ast.CallExpr) (int64, bool) {
+		constArg := func(i int) (int64, bool) {
+			if i < len(call.Args) {
+				if tv := info.Types[call.Args[i]]; tv.Value != nil && tv.Value.Kind() == constant.Int {
+					return constant.Int64Val(tv.Value)
+				}
+			}
+			return 0, false
+		}
+		if se, ok := unparen(call.Fun).(*ast.SelectorExpr); ok && se.Sel.Name == "SetString" && len(call.Args) == 2 {
+			return constArg(1)
+		}
+		f := calleeOf(info, call)
+		if f == nil || f.Pkg() == nil || f.Pkg().Path() != pkgCONS {
+			return 0, false
+		}
+		idx, known := baseParam[f]
+		if !known {
+			idx = -1
+			if d := c.funcDecl(f); d != nil && d.Body != nil {
+				sig := f.Type().(*types.Signature)
+				ast.Inspect(d.Body, func(m ast.Node) bool {
+					ic, ok := m.(*ast.CallExpr)
+					if !ok || len(ic.Args) != 2 {
+						return true
+					}
+					if se, ok := unparen(ic.Fun).(*ast.SelectorExpr); !ok || se.Sel.Name != "SetString" {
+						return true
+					}
+					if id, ok := unparen(ic.Args[1]).(*ast.Ident); ok {
+						for i := 0; i < sig.Params().Len(); i++ {
+							if info.ObjectOf(id) == sig.Params().At(i) {
+								idx = i
+							}
+						}
+					}
+					return true
+				})
+			}
+			baseParam[f] = idx
+		}
+		if idx < 0 {
+			return 0, false
+		}
+		return constArg(idx)
+	}
 	var fallBase int64 = -1
 	var sobj types.Object = readFn.Type().(*types.Signature).Params().At(1)
 	// the reader may delegate to a helper of the package (NewIntFromString → parseIntLit):
@@ -162,8 +232,10 @@ func ruleLITINT(c *Ctx) []Obligation {
 	for hop := 0; hop < 3; hop++ {
 		hasSetString := false
 		ast.Inspect(rfd.Body, func(m ast.Node) bool {
-			if se, ok := m.(*ast.SelectorExpr); ok && se.Sel.Name == "SetString" {
-				hasSetString = true
+			if call, ok := m.(*ast.CallExpr); ok {
+				if _, isParse := parseBase(call); isParse {
+					hasSetString = true
+				}
 			}
 			return true
 		})
@@ -243,13 +315,9 @@ func ruleLITINT(c *Ctx) []Obligation {
 	setStringBases := func(n ast.Node) []int64 {
 		var bases []int64
 		ast.Inspect(n, func(m ast.Node) bool {
-			if call, ok := m.(*ast.CallExpr); ok && len(call.Args) == 2 {
-				if se, ok := unparen(call.Fun).(*ast.SelectorExpr); ok && se.Sel.Name == "SetString" {
-					if tv := info.Types[call.Args[1]]; tv.Value != nil {
-						if b, ok := constant.Int64Val(constant.ToInt(tv.Value)); ok {
-							bases = append(bases, b)
-						}
-					}
+			if call, ok := m.(*ast.CallExpr); ok {
+				if b, ok := parseBase(call); ok {
+					bases = append(bases, b)
 				}
 			}
 			return true
@@ -302,13 +370,9 @@ func ruleLITINT(c *Ctx) []Obligation {
 				return false
 			}
 		}
-		if call, ok := m.(*ast.CallExpr); ok && len(call.Args) == 2 {
-			if se, ok := unparen(call.Fun).(*ast.SelectorExpr); ok && se.Sel.Name == "SetString" {
-				if tv := info.Types[call.Args[1]]; tv.Value != nil {
-					if b, ok := constant.Int64Val(constant.ToInt(tv.Value)); ok {
-						fallBase = b
-					}
-				}
+		if call, ok := m.(*ast.CallExpr); ok {
+			if b, ok := parseBase(call); ok {
+				fallBase = b
 			}
 		}
 		return true
@@ -383,529 +447,6 @@ func ruleLITINT(c *Ctx) []Obligation {
 }
 
 // ---------------------------------------------------------------------------
-
-func ruleLITFP(c *Ctx) []Obligation {
-	var obs []Obligation
-	identFn := c.lookupFunc(pkgCONS, "Float.Ident")
-	readFn := c.lookupFunc(pkgCONS, "NewFloatFromString")
-	ifd, rfd := c.funcDecl(identFn), c.funcDecl(readFn)
-	if ifd == nil || rfd == nil {
-		return []Obligation{{Key: "anchors", Verdict: UNDECIDED, Detail: "constant.(*Float).Ident / constant.NewFloatFromString not found"}}
-	}
-	info := c.pkg(pkgCONS).TypesInfo
-	codecOf := func(n ast.Node, names ...string) string {
-		pkg := ""
-		ast.Inspect(n, func(m ast.Node) bool {
-			call, ok := m.(*ast.CallExpr)
-			if !ok {
-				return true
-			}
-			f := calleeOf(info, call)
-			if f == nil || f.Pkg() == nil || !strings.HasPrefix(f.Pkg().Path(), pkgFLT+"/") {
-				return true
-			}
-			for _, nm := range names {
-				if f.Name() == nm && pkg == "" {
-					pkg = strings.TrimPrefix(f.Pkg().Path(), pkgFLT+"/")
-				}
-			}
-			return true
-		})
-		return pkg
-	}
-	// reader: HasPrefix(s, "0x?") branches → codec
-	readCodec := map[string]string{}
-	ast.Inspect(rfd.Body, func(nd ast.Node) bool {
-		cl, ok := nd.(*ast.CaseClause)
-		if !ok {
-			return true
-		}
-		for _, e := range cl.List {
-			if call, ok := e.(*ast.CallExpr); ok && len(call.Args) == 2 && strings.HasSuffix(exprString(call.Fun), "HasPrefix") {
-				if tv := info.Types[call.Args[1]]; tv.Value != nil && tv.Value.Kind() == constant.String {
-					pfx := constant.StringVal(tv.Value)
-					if strings.HasPrefix(pfx, "0x") && len(pfx) == 3 {
-						readCodec[pfx[2:]] = codecOf(cl, "NewFromBits")
-					}
-				}
-			}
-		}
-		return true
-	})
-	// reader: kinds handled by the decimal switch (the last top-level switch over typ.Kind)
-	decimalKinds := map[string]bool{}
-	for _, st := range rfd.Body.List {
-		if sw, ok := st.(*ast.SwitchStmt); ok && sw.Tag != nil && isKindTag(info, rfd.Body, sw.Tag) {
-			decimalKinds = map[string]bool{}
-			for _, cc := range sw.Body.List {
-				for _, e := range cc.(*ast.CaseClause).List {
-					decimalKinds[exprString(e)] = true
-				}
-			}
-		}
-	}
-	// printer: the kind switch
-	var ksw *ast.SwitchStmt
-	for _, st := range ifd.Body.List {
-		if sw, ok := st.(*ast.SwitchStmt); ok && sw.Tag != nil && isKindTag(info, ifd.Body, sw.Tag) {
-			ksw = sw
-		}
-	}
-	if ksw == nil {
-		return []Obligation{{Key: "constant.(*Float).Ident kind switch", Verdict: UNDECIDED, Detail: "no switch over the kind at the top level of Ident"}}
-	}
-	fallKinds := map[string]bool{}
-	for _, cc := range ksw.Body.List {
-		cl := cc.(*ast.CaseClause)
-		if cl.List == nil {
-			continue
-		}
-		for _, e := range cl.List {
-			kind := exprString(e)
-			// hex prefix constant of this case
-			prefix := ""
-			ast.Inspect(cl, func(m ast.Node) bool {
-				if vs, ok := m.(*ast.ValueSpec); ok && len(vs.Names) == 1 && vs.Names[0].Name == "hexPrefix" && len(vs.Values) == 1 {
-					if tv := info.Types[vs.Values[0]]; tv.Value != nil {
-						if r, ok := constant.Int64Val(constant.ToInt(tv.Value)); ok {
-							prefix = string(rune(r))
-						}
-					}
-				}
-				return true
-			})
-			falls := true
-			if len(cl.Body) > 0 {
-				switch last := cl.Body[len(cl.Body)-1].(type) {
-				case *ast.ReturnStmt:
-					falls = false
-				case *ast.ExprStmt:
-					if endsInPanic([]ast.Stmt{last}) {
-						falls = false
-					}
-				}
-			}
-			if falls {
-				fallKinds[kind] = true
-			}
-			o := Obligation{Key: "float kind " + kind + " hex form", Pos: c.pos(cl.Pos()), Verdict: OK}
-			if prefix == "" {
-				// 16-digit double form: the reader's default hex branch
-				o.Detail = "16-digit double bit pattern (reader: default hex branch via math.Float64frombits)"
-			} else {
-				pc := codecOf(cl, "NewFromBig")
-				rc, has := readCodec[prefix]
-				switch {
-				case !has:
-					o.Verdict, o.Detail = VIOL, fmt.Sprintf("the printer writes 0x%s… for this kind but the reader has no 0x%s branch", prefix, prefix)
-				case pc == "" || rc == "":
-					o.Verdict, o.Detail = UNDECIDED, fmt.Sprintf("codec package not identified (printer %q, reader %q)", pc, rc)
-				case pc != rc:
-					o.Verdict, o.Detail = VIOL, fmt.Sprintf("0x%s is encoded with %s but decoded with %s: the bit pattern is reinterpreted in another format", prefix, pc, rc)
-				default:
-					o.Detail = fmt.Sprintf("0x%s ↔ %s on both sides", prefix, pc)
-				}
-			}
-			obs = append(obs, o)
-		}
-	}
-	// fall-through (decimal) set agreement
-	o := Obligation{Key: "decimal spelling kinds", Pos: c.pos(ksw.Pos()), Verdict: OK}
-	a, b := sortedKeys(fallKinds), sortedKeys(decimalKinds)
-	sort.Strings(a)
-	sort.Strings(b)
-	if strings.Join(a, ",") != strings.Join(b, ",") {
-		o.Verdict = VIOL
-		o.Detail = fmt.Sprintf("the printer can fall through to the decimal spelling for %v, the reader's decimal branch handles %v: a kind in one set only is printed in a form that cannot be read (or panics)", a, b)
-	} else {
-		o.Detail = "printer fall-through kinds = reader decimal kinds = " + strings.Join(a, ", ")
-	}
-	obs = append(obs, o)
-	obs = append(obs, c.litFPDoubleForm(rfd, info)...)
-	obs = append(obs, c.litFPPrecision(rfd, info)...)
-	obs = append(obs, c.litFPExactness(ksw, fallKinds, info)...)
-	return obs
-}
-
-// ieeeSignificand: significand width in bits (including the hidden bit) of the
-// IEEE 754 binary interchange formats LLVM's half, float and double denote.
-var ieeeSignificand = map[string]int64{"types.FloatKindHalf": 11, "types.FloatKindFloat": 24, "types.FloatKindDouble": 53}
-
-// litFPDoubleForm: LangRef — "constants of types half, float, and double are
-// represented using the 16-digit form (which matches the IEEE754
-// representation for double)". In the reader's default hexadecimal branch every
-// kind case therefore decodes the parsed 64 bits with math.Float64frombits.
-func (c *Ctx) litFPDoubleForm(rfd *ast.FuncDecl, info *types.Info) []Obligation {
-	var obs []Obligation
-	var def *ast.CaseClause
-	ast.Inspect(rfd.Body, func(nd ast.Node) bool {
-		sw, ok := nd.(*ast.SwitchStmt)
-		if !ok || sw.Tag != nil {
-			return true
-		}
-		hasPrefix := false
-		var d *ast.CaseClause
-		for _, cc := range sw.Body.List {
-			cl := cc.(*ast.CaseClause)
-			if cl.List == nil {
-				d = cl
-			}
-			for _, e := range cl.List {
-				if call, ok := e.(*ast.CallExpr); ok && strings.HasSuffix(exprString(call.Fun), "HasPrefix") {
-					hasPrefix = true
-				}
-			}
-		}
-		if hasPrefix && d != nil && def == nil {
-			def = d
-		}
-		return true
-	})
-	if def == nil {
-		return []Obligation{{Key: "16-digit double form branch", Verdict: UNDECIDED, Pos: c.pos(rfd.Pos()), Detail: "no default branch in the reader's prefix switch"}}
-	}
-	// the variable holding the parsed bits
-	var bits types.Object
-	var bitsCall *ast.CallExpr
-	var ksw *ast.SwitchStmt
-	for _, st := range def.Body {
-		switch st := st.(type) {
-		case *ast.AssignStmt:
-			if len(st.Rhs) == 1 && len(st.Lhs) == 2 {
-				if call, ok := st.Rhs[0].(*ast.CallExpr); ok && isPkgFunc(calleeOf(info, call), "strconv", "ParseUint") {
-					if id, ok := st.Lhs[0].(*ast.Ident); ok {
-						bits = info.ObjectOf(id)
-						bitsCall = call
-					}
-				}
-			}
-		case *ast.SwitchStmt:
-			if st.Tag != nil && isKindTag(info, rfd.Body, st.Tag) {
-				ksw = st
-			}
-		}
-	}
-	_ = ksw
-	if bits == nil || bitsCall == nil {
-		return []Obligation{{Key: "16-digit double form branch", Verdict: UNDECIDED, Pos: c.pos(def.Pos()), Detail: "no `bits, err := strconv.ParseUint(...)` in the default hexadecimal branch"}}
-	}
-	// value flow on SSA: every use of the parsed bits (through phis, local cells and
-	// parameters of functions of this package) is the argument of math.Float64frombits
-	o := Obligation{Key: "16-digit form: the parsed bits are decoded only by math.Float64frombits", Pos: c.pos(bitsCall.Pos()), Verdict: OK}
-	sf := c.ssaFunc(c.lookupFunc(pkgCONS, "NewFloatFromString"))
-	var start ssa.Value
-	if sf != nil {
-		for _, b := range sf.Blocks {
-			for _, in := range b.Instrs {
-				if call, ok := in.(*ssa.Call); ok && call.Pos() == bitsCall.Lparen {
-					start = call
-				}
-			}
-		}
-	}
-	if start == nil {
-		o.Verdict, o.Detail = UNDECIDED, "SSA call for the ParseUint of the default hexadecimal branch not found"
-		return append(obs, o)
-	}
-	good := 0
-	var other []string
-	seen := map[ssa.Value]bool{}
-	var follow func(v ssa.Value, tupleIdx int)
-	follow = func(v ssa.Value, tupleIdx int) {
-		if seen[v] {
-			return
-		}
-		seen[v] = true
-		refs := v.Referrers()
-		if refs == nil {
-			return
-		}
-		for _, r := range *refs {
-			switch r := r.(type) {
-			case *ssa.Extract:
-				if tupleIdx < 0 || r.Index == 0 {
-					if r.Index == 0 {
-						follow(r, -1)
-					}
-				}
-			case *ssa.Phi:
-				follow(r, -1)
-			case *ssa.DebugRef, *ssa.MakeInterface:
-				// debugging info / formatting of a message
-			case *ssa.Store:
-				if r.Val == v {
-					if a, ok := r.Addr.(*ssa.Alloc); ok {
-						for _, ar := range *a.Referrers() {
-							if ld, ok := ar.(*ssa.UnOp); ok && ld.Op == token.MUL {
-								follow(ld, -1)
-							}
-						}
-					} else {
-						other = append(other, c.pos(r.Pos())+": stored into memory")
-					}
-				}
-			case *ssa.Call:
-				callee := r.Call.StaticCallee()
-				switch {
-				case callee != nil && callee.Pkg != nil && callee.Pkg.Pkg.Path() == "math" && callee.Name() == "Float64frombits":
-					good++
-				case callee != nil && callee.Pkg != nil && callee.Pkg.Pkg.Path() == pkgCONS && len(callee.Params) == len(r.Call.Args):
-					for i, a := range r.Call.Args {
-						if a == v {
-							follow(callee.Params[i], -1)
-						}
-					}
-				default:
-					name := "a dynamic call"
-					if callee != nil {
-						name = callee.String()
-					}
-					other = append(other, c.pos(r.Pos())+": passed to "+name)
-				}
-			case *ssa.BinOp:
-				if r.Op == token.EQL || r.Op == token.NEQ {
-					continue
-				}
-				other = append(other, fmt.Sprintf("%s: arithmetic %s on the bit pattern", c.pos(r.Pos()), r.Op))
-			case *ssa.Convert:
-				other = append(other, c.pos(r.Pos())+": converted to "+r.Type().String())
-			default:
-				other = append(other, fmt.Sprintf("%s: used by %T", c.pos(r.Pos()), r))
-			}
-		}
-	}
-	follow(start, 0)
-	switch {
-	case len(other) > 0:
-		sort.Strings(other)
-		o.Verdict = VIOL
-		o.Detail = "the 16-digit 0x form is the IEEE 754 double bit pattern of the value (LangRef); here the parsed bits are also taken apart by other means — " + strings.Join(other, "; ") + " — so the exponent/significand layout of a double is reinterpreted by hand"
-	case good == 0:
-		o.Verdict, o.Detail = VIOL, "the parsed bits never reach math.Float64frombits"
-	default:
-		o.Detail = fmt.Sprintf("%d decode site(s), all math.Float64frombits(bits); no other use of the bit pattern", good)
-	}
-	return append(obs, o)
-}
-
-// litFPDefaultHexClause: the default clause of the reader's prefix switch (the 16-digit form).
-func litFPDefaultHexClause(rfd *ast.FuncDecl) *ast.CaseClause {
-	var def *ast.CaseClause
-	ast.Inspect(rfd.Body, func(nd ast.Node) bool {
-		sw, ok := nd.(*ast.SwitchStmt)
-		if !ok || sw.Tag != nil {
-			return true
-		}
-		hasPrefix := false
-		var d *ast.CaseClause
-		for _, cc := range sw.Body.List {
-			cl := cc.(*ast.CaseClause)
-			if cl.List == nil {
-				d = cl
-			}
-			for _, e := range cl.List {
-				if call, ok := e.(*ast.CallExpr); ok && strings.HasSuffix(exprString(call.Fun), "HasPrefix") {
-					hasPrefix = true
-				}
-			}
-		}
-		if hasPrefix && d != nil && def == nil {
-			def = d
-		}
-		return true
-	})
-	return def
-}
-
-// litFPPrecision: the significand width the reader rounds each kind to. A
-// precision site is an integer constant inside a case of one kind that reaches
-// SetPrec / big.ParseFloat (as a constant, a local constant, a local variable,
-// or an argument of a helper of this package). All sites of a kind agree and
-// equal the IEEE significand width; half and float — narrower than the double
-// the 16-digit form is decoded as — have a site inside the 16-digit branch.
-func (c *Ctx) litFPPrecision(rfd *ast.FuncDecl, info *types.Info) []Obligation {
-	var obs []Obligation
-	type site struct {
-		pos token.Pos
-		val int64
-	}
-	sites := map[string][]site{}
-	intConst := func(e ast.Expr) (int64, bool) {
-		if tv := info.Types[e]; tv.Value != nil && tv.Value.Kind() == constant.Int {
-			return constant.Int64Val(tv.Value)
-		}
-		return 0, false
-	}
-	// objects used as an argument of SetPrec / ParseFloat / a function of this package
-	precArg := map[types.Object]bool{}
-	ast.Inspect(rfd.Body, func(nd ast.Node) bool {
-		call, ok := nd.(*ast.CallExpr)
-		if !ok {
-			return true
-		}
-		relevant := false
-		if se, ok := unparen(call.Fun).(*ast.SelectorExpr); ok && (se.Sel.Name == "SetPrec" || se.Sel.Name == "ParseFloat") {
-			relevant = true
-		}
-		if f := calleeOf(info, call); f != nil && f.Pkg() != nil && f.Pkg().Path() == pkgCONS {
-			relevant = true
-		}
-		if relevant {
-			for _, a := range call.Args {
-				if id, ok := unparen(a).(*ast.Ident); ok {
-					precArg[info.ObjectOf(id)] = true
-				}
-			}
-		}
-		return true
-	})
-	ast.Inspect(rfd.Body, func(nd ast.Node) bool {
-		cl, ok := nd.(*ast.CaseClause)
-		if !ok || len(cl.List) == 0 {
-			return true
-		}
-		isKindCase := false
-		for _, e := range cl.List {
-			if strings.Contains(exprString(e), "FloatKind") {
-				isKindCase = true
-			}
-		}
-		if !isKindCase {
-			return true
-		}
-		add := func(pos token.Pos, v int64) {
-			for _, e := range cl.List {
-				sites[exprString(e)] = append(sites[exprString(e)], site{pos, v})
-			}
-		}
-		for _, st := range cl.Body {
-			ast.Inspect(st, func(m ast.Node) bool {
-				switch m := m.(type) {
-				case *ast.CaseClause:
-					return false // a nested switch has its own kind cases
-				case *ast.ValueSpec:
-					for i, nm := range m.Names {
-						if i < len(m.Values) && precArg[info.Defs[nm]] {
-							if v, ok := intConst(m.Values[i]); ok {
-								add(m.Pos(), v)
-							}
-						}
-					}
-				case *ast.AssignStmt:
-					for i, l := range m.Lhs {
-						if id, ok := l.(*ast.Ident); ok && i < len(m.Rhs) && precArg[info.ObjectOf(id)] {
-							if v, ok := intConst(m.Rhs[i]); ok {
-								add(m.Pos(), v)
-							}
-						}
-					}
-				case *ast.CallExpr:
-					if se, ok := unparen(m.Fun).(*ast.SelectorExpr); ok {
-						switch {
-						case se.Sel.Name == "SetPrec" && len(m.Args) == 1:
-							if _, isID := unparen(m.Args[0]).(*ast.Ident); !isID {
-								if v, ok := intConst(m.Args[0]); ok {
-									add(m.Pos(), v)
-								}
-							}
-						case se.Sel.Name == "ParseFloat" && len(m.Args) == 4:
-							if _, isID := unparen(m.Args[2]).(*ast.Ident); !isID {
-								if v, ok := intConst(m.Args[2]); ok {
-									add(m.Pos(), v)
-								}
-							}
-						}
-					}
-				}
-				return true
-			})
-		}
-		return true
-	})
-	def := litFPDefaultHexClause(rfd)
-	for _, kind := range sortedKeys(sites) {
-		ss := sites[kind]
-		o := Obligation{Key: "float kind " + kind + " reader precision", Pos: c.pos(ss[0].pos), Verdict: OK}
-		var vals []string
-		agree := true
-		for _, x := range ss {
-			vals = append(vals, fmt.Sprint(x.val))
-			if x.val != ss[0].val {
-				agree = false
-			}
-		}
-		want, known := ieeeSignificand[kind]
-		switch {
-		case !agree:
-			o.Verdict, o.Detail = VIOL, fmt.Sprintf("the reader rounds this kind to different significand widths at different sites (%s bits): the hexadecimal and the decimal spelling of one value yield different constants", strings.Join(vals, ", "))
-		case known && ss[0].val != want:
-			o.Verdict, o.Detail = VIOL, fmt.Sprintf("the reader keeps %d significand bits for this kind; the format has %d (the hidden bit counts): values are rounded to a precision the type does not have", ss[0].val, want)
-		default:
-			o.Detail = fmt.Sprintf("%d sites, %s bits", len(ss), vals[0])
-		}
-		obs = append(obs, o)
-	}
-	// kinds narrower than a double are rounded inside the 16-digit branch
-	if def != nil {
-		for _, kind := range []string{"types.FloatKindHalf", "types.FloatKindFloat"} {
-			o := Obligation{Key: "float kind " + kind + " is rounded to its own precision in the 16-digit branch", Pos: c.pos(def.Pos()), Verdict: VIOL,
-				Detail: "the 16-digit form is decoded as a double; for this narrower kind no rounding to the kind's significand width happens in that branch, so a literal with more significant bits than the kind holds is stored unrounded and printing it again takes a second step to settle (the printer truncates what the reader kept)"}
-			for _, x := range sites[kind] {
-				if def.Pos() <= x.pos && x.pos < def.End() {
-					o.Verdict, o.Detail = OK, fmt.Sprintf("%d bits", x.val)
-				}
-			}
-			obs = append(obs, o)
-		}
-	}
-	return obs
-}
-
-// litFPExactness: a kind the printer may spell in decimal is guarded by the
-// exactness test of that kind's width (float.IsExact16/32/64).
-func (c *Ctx) litFPExactness(ksw *ast.SwitchStmt, fallKinds map[string]bool, info *types.Info) []Obligation {
-	var obs []Obligation
-	want := map[string]string{"types.FloatKindHalf": "IsExact16", "types.FloatKindFloat": "IsExact32", "types.FloatKindDouble": "IsExact64"}
-	for _, cc := range ksw.Body.List {
-		cl := cc.(*ast.CaseClause)
-		for _, e := range cl.List {
-			kind := exprString(e)
-			if !fallKinds[kind] {
-				continue
-			}
-			o := Obligation{Key: "float kind " + kind + " decimal spelling guarded by exactness test", Pos: c.pos(cl.Pos()), Verdict: OK}
-			var used []string
-			ast.Inspect(cl, func(m ast.Node) bool {
-				id, ok := m.(*ast.Ident)
-				if !ok {
-					return true
-				}
-				if f, ok := info.Uses[id].(*types.Func); ok && f.Pkg() != nil && f.Pkg().Path() == pkgFLT && strings.HasPrefix(f.Name(), "IsExact") {
-					used = append(used, f.Name())
-				}
-				return true
-			})
-			w, known := want[kind]
-			switch {
-			case !known:
-				o.Verdict, o.Detail = UNDECIDED, "no exactness test known for this kind, yet the printer may spell it in decimal"
-			case len(used) == 0:
-				o.Verdict, o.Detail = VIOL, "the printer can fall through to the decimal spelling of this kind without any float.IsExact test: a value whose shortest decimal is not exact is printed in a form LLVM rejects or reads as another value"
-			default:
-				for _, u := range used {
-					if u != w {
-						o.Verdict, o.Detail = VIOL, fmt.Sprintf("the decimal spelling of this kind is guarded by float.%s, the test of another width (want float.%s)", u, w)
-					}
-				}
-				if o.Verdict == OK {
-					o.Detail = "float." + w
-				}
-			}
-			obs = append(obs, o)
-		}
-	}
-	return obs
-}
 
 // spellingParts splits a spelling expression of the form  "prefix" + <digits>  or
 // fmt.Sprintf("prefix%X", <value>)  into its constant prefix and the
